@@ -145,6 +145,17 @@ class BlockSlice:
     def ptr_metadata(self, eng):
         return self.len
 
+    def deref_cell(self, eng):
+        return Cell(self)      # [T] is unsized: only ever seen behind the reference
+
+    def index_cell(self, eng, idx, p):
+        if p[0] == 'cindex':
+            idx = (self.len - p[1]) if p[3] else bv(p[1], 64)
+        if not eng.fork_bool(z3.ULT(idx, self.len)):
+            raise PathEnd('panic', 'index out of bounds of a slice')
+        sz = eng.size_of(self.ptr.ty)
+        return BlockCell(BlockPtr(self.ptr.blk, z3.simplify(self.ptr.off + idx * sz), self.ptr.ty))
+
 
 class BlockCell:
     """the place *p"""
